@@ -52,7 +52,9 @@ type world struct {
 	valStr  string
 	// custody
 	custOwner  int
-	custodians []int
+	custodians []int // ghost record of the custodian list IN FORCE: follows every accepted add / remove / drop
+	formerCust []int // accounts that were custodians once and were removed or dropped
+	custKeyN   int   // the settings key chain: the next edit presents "k<N>" and installs sha256("k<N+1>")
 	custHashes []string
 	// recovery
 	secretOf map[int]string
@@ -200,6 +202,7 @@ func (w *world) history(only string) {
 	w.late = true
 	w.ops(10, only)
 	w.custodyBoundary()
+	w.custodyMembership()
 	w.rrBoundaryAttempt()
 	w.end()
 }
@@ -473,7 +476,107 @@ func (w *world) setupCustody() {
 		cs = append(cs, w.addr(c))
 	}
 	w.must("custody-add-custodians", []sdk.Msg{custodytypes.NewMsgAddToCustodyCustodians(w.addr(5), cs, "k1", hex.EncodeToString(kh2[:]), "", "")}, []int{5})
+	w.custKeyN = 2
 	w.custodySend()
+}
+
+// custodyEdit: the owner edits the custodian list (kind: 0 remove one, 1 add one, 2 drop all); the
+// ghost list follows the edit only when the transaction is accepted
+func (w *world) custodyEdit(kind int, who int) bool {
+	old := fmt.Sprintf("k%d", w.custKeyN)
+	nh := sha256.Sum256([]byte(fmt.Sprintf("k%d", w.custKeyN+1)))
+	nk := hex.EncodeToString(nh[:])
+	var msg sdk.Msg
+	op := ""
+	switch kind {
+	case 0:
+		msg, op = custodytypes.NewMsgRemoveFromCustodyCustodians(w.addr(w.custOwner), w.addr(who), old, nk, "", ""), "custody-remove-custodian"
+	case 1:
+		msg, op = custodytypes.NewMsgAddToCustodyCustodians(w.addr(w.custOwner), []sdk.AccAddress{w.addr(who)}, old, nk, "", ""), "custody-add-custodian"
+	default:
+		msg, op = custodytypes.NewMsgDropCustodyCustodians(w.addr(w.custOwner), old, nk, "", ""), "custody-drop-custodians"
+	}
+	r := w.tx(op, false, []sdk.Msg{msg}, []int{w.custOwner})
+	if r.Code != 0 || r.Panic != "" {
+		return false
+	}
+	w.custKeyN++
+	in := func(l []int, x int) bool {
+		for _, y := range l {
+			if y == x {
+				return true
+			}
+		}
+		return false
+	}
+	switch kind {
+	case 0:
+		var nl []int
+		for _, c := range w.custodians {
+			if c != who {
+				nl = append(nl, c)
+			}
+		}
+		w.custodians = nl
+		if !in(w.formerCust, who) {
+			w.formerCust = append(w.formerCust, who)
+		}
+	case 1:
+		if !in(w.custodians, who) {
+			w.custodians = append(w.custodians, who)
+		}
+		var nf []int
+		for _, c := range w.formerCust {
+			if c != who {
+				nf = append(nf, c)
+			}
+		}
+		w.formerCust = nf
+	default:
+		for _, c := range w.custodians {
+			if !in(w.formerCust, c) {
+				w.formerCust = append(w.formerCust, c)
+			}
+		}
+		w.custodians = nil
+	}
+	return true
+}
+
+// custodyMembership: a transfer is requested; a listed custodian is removed and then acts
+// (approve, decline); a custodian is added AFTER the request and acts; the threshold is judged
+// against the list in force
+func (w *world) custodyMembership() {
+	w.custodySend()
+	if len(w.custHashes) == 0 || len(w.custodians) == 0 {
+		return
+	}
+	h := w.custHashes[0]
+	removed := w.custodians[w.r.Intn(len(w.custodians))]
+	if w.hist%3 == 2 {
+		w.custodyEdit(2, 0)
+	} else {
+		w.custodyEdit(0, removed)
+	}
+	if len(w.custHashes) > 0 {
+		if w.r.Bool() {
+			w.tx("custody-decline-by-former", true, []sdk.Msg{custodytypes.NewMsgDeclineCustodyTransaction(w.addr(removed), w.addr(w.custOwner), w.spell(h))}, []int{removed})
+		}
+		w.approve("custody-approve-by-former", true, removed, w.spell(h))
+	}
+	for _, cand := range []int{1, 2, 3} {
+		isIn := false
+		for _, c := range w.custodians {
+			isIn = isIn || c == cand
+		}
+		if !isIn && cand != removed {
+			w.custodyEdit(1, cand)
+			if len(w.custHashes) > 0 {
+				w.approve("custody-approve-by-late-member", false, cand, w.spell(h))
+			}
+			break
+		}
+	}
 }
 
 // custodyBoundary: a fresh request approved by the listed custodians one after the other, so that
@@ -496,7 +599,7 @@ func (w *world) custodyBoundary() {
 // custodySend: the custody owner requests a transfer (pooled until approved)
 func (w *world) custodySend() {
 	to := 1 + w.r.Intn(3)
-	msg := custodytypes.NewMsgSend(w.addr(w.custOwner), w.addr(to), sdk.NewCoins(ukex(1_000_000+int64(w.r.Intn(1000)))), "", sdk.NewCoins(ukex(1000+int64(w.r.Intn(100)))))
+	msg := custodytypes.NewMsgSend(w.addr(w.custOwner), w.addr(to), sdk.NewCoins(ukex(1_000_000+int64(w.r.Intn(1000)))), "", sdk.NewCoins(ukex(2400+int64(w.r.Intn(100)))))
 	pre := w.snapshot()
 	bz, err := w.c.BuildTx([]sdk.Msg{msg}, []int{w.custOwner}, abci.DefaultFee())
 	if err != nil {
@@ -509,6 +612,7 @@ func (w *world) custodySend() {
 	if ok {
 		h := sha256.Sum256(bz)
 		w.custHashes = []string{hex.EncodeToString(h[:])} // the pool keeps only the latest request
+		w.refreshCustody()                                 // (executed at once when no custodian is listed)
 	}
 }
 
@@ -864,11 +968,42 @@ func (w *world) opTable() map[string]opFn {
 				w.custodySend()
 				return
 			}
+			if len(w.custodians) == 0 {
+				return
+			}
 			s := w.custodians[w.r.Intn(len(w.custodians))]
 			w.approve("custody-approve", false, s, w.spell(w.custHashes[0]))
 		},
+		"h:custody-edit-custodians": func(w *world) {
+			switch w.r.Intn(5) {
+			case 0, 1:
+				if len(w.custodians) > 0 {
+					w.custodyEdit(0, w.custodians[w.r.Intn(len(w.custodians))])
+				}
+			case 2, 3:
+				w.custodyEdit(1, []int{6, 7, 0, 1, 2, 3}[w.r.Intn(6)])
+			default:
+				if w.r.Chance(40) {
+					w.custodyEdit(2, 0)
+				}
+			}
+		},
+		"x:custody-act-as-former-member": func(w *world) {
+			if len(w.custHashes) == 0 || len(w.formerCust) == 0 {
+				return
+			}
+			s := w.formerCust[w.r.Intn(len(w.formerCust))]
+			if w.r.Chance(35) {
+				w.tx("custody-decline-by-former", true, []sdk.Msg{custodytypes.NewMsgDeclineCustodyTransaction(w.addr(s), w.addr(w.custOwner), w.spell(w.custHashes[0]))}, []int{s})
+			} else {
+				w.approve("custody-approve-by-former", true, s, w.spell(w.custHashes[0]))
+			}
+		},
 		"x:custody-approve-repeat": func(w *world) { // one custodian approves again in another spelling of the hash
 			if len(w.custHashes) == 0 {
+				return
+			}
+			if len(w.custodians) == 0 {
 				return
 			}
 			s := w.custodians[w.r.Intn(len(w.custodians))]
@@ -1106,11 +1241,15 @@ func (w *world) facts(msgs []sdk.Msg, signers []int) (coq []string, js []string)
 		callerIs := callerIdx >= 0 && target.Equals(w.addr(w.custOwner))
 		legit := 0
 		voted := false
+		inForce := map[int]bool{}
+		for _, c := range w.custodians {
+			inForce[c] = true
+		}
 		for c := range w.ghost[hash] {
 			if c == callerIdx {
 				voted = true
-			} else {
-				legit++
+			} else if inForce[c] {
+				legit++ // approvals of members since removed do not count
 			}
 		}
 		if !target.Equals(w.addr(w.custOwner)) {
